@@ -28,4 +28,8 @@ PROPS = {
                 bound={}, budget={"quick": 120, "thorough": 900},
                 assumptions=E1_ASSUME,
                 explanation="(i) 2-3 threads creating contexts by every route (NewFContext, Clone(ctx), ctx.Clone(), Clone of a foreign FContext, ReadRequestHeader), all interleavings unbounded: op ids pairwise distinct; (ii) 2-3 threads running every operation pair / selected length-2 sequences on one shared FContext, all interleavings unbounded: brute-force linearizability against a three-map model, returned maps and clones mutated to expose aliasing; (iii) every mutation sequence of length 3 (4) on original and clone after cloning by each route, differential against reference maps"),
+    "C20": dict(run=e1.run, replay=e1.replay, harnesses=["natssrv"], level="model_checking",
+                bound={}, budget={"quick": 120, "thorough": 900},
+                assumptions=E1_ASSUME + ["fakenats mirrors nats.go v1.33.1 dispatch/Drain/Flush/Barrier semantics (engine/vsched/fakenats, header comment)"],
+                explanation="real fNatsServer over fakenats: workers 1-2 x queue length 0-2 x burst 2-3 x Stop at every position of the request stream (+ a racing second publisher, + a request after Stop returned); all schedules of publisher, dispatcher, drainer, workers, Serve and Stop to the bound"),
 }
